@@ -1,8 +1,10 @@
 """C41 -- generated behaviours integrate their constitutive equations.
 Engine G+S: the mfront of /repo's working tree generates the C++ of our reference programs (props/C41/mfront); the
 generated class templates are instantiated with symv::Sym; the traced stress / residual / Newton step / state update are
-proved (Coq) equal to the constitutive equations written independently in coq/BehSpec.v.  The Newton and Runge-Kutta
-loops are not traced: the states returned by the double instantiation are checked against the same equations (Python)."""
+proved (Coq) equal to the constitutive equations written independently in coq/BehSpec.v (incl. the orthotropic elastic program with
+the Pipe axes convention in four hypotheses and the derivative function of the RungeKutta DSL).  The Newton and Runge-Kutta loops are
+not traced: the states returned by the double instantiation are checked against the same equations (Python): fixed-step Runge-Kutta
+schemes against the one-step formulas, adaptive ones against a reference solution of the rate equations."""
 import math, os, sys
 sys.path.insert(0, os.path.dirname(os.path.abspath(__file__)))
 from vlib import guarded_main
@@ -94,31 +96,141 @@ def check_runs(c, lines):
     return nrun
 
 
+
+def norton_rates(eel, deto, young, nu, A, E, dt):
+    sg = hooke(young, nu, eel)
+    seq = sigmaeq(sg)
+    r = A * seq ** E
+    n = [1.5 * x / seq for x in dev(sg)] if seq > 0 else [0.0] * len(eel)
+    return [deto[i] / dt - r * n[i] for i in range(len(eel))] + [r]
+
+
+def rk_step(y, h, f, alg):
+    ax = lambda y, k, cf: [a + cf * b for a, b in zip(y, k)]
+    if alg == "euler":
+        return ax(y, f(y), h)
+    if alg == "rk2":
+        return ax(y, f(ax(y, f(y), h / 2)), h)
+    k1 = f(y)
+    k2 = f(ax(y, k1, h / 2))
+    k3 = f(ax(y, k2, h / 2))
+    k4 = f(ax(y, k3, h))
+    return [y[i] + h * (k1[i] + 2 * k2[i] + 2 * k3[i] + k4[i]) / 6 for i in range(len(y))]
+
+
+ORTHO_PERM = {"h3d": (0, 1, 2), "hax": (0, 1, 2), "hpe": (0, 2, 1), "hgp": (0, 2, 1)}
+
+
+def check_ortho_rk(c, lines):
+    """orthotropic elasticity (generalised Hooke law in compliance form, pipe convention) and Runge-Kutta integrators"""
+    nrun = 0
+    for l in lines:
+        if not l.startswith("RUN"):
+            continue
+        t = l.split()
+        prog, h = t[1], t[2]
+        if not (prog == "ortho" or prog.startswith("rk_")):
+            continue
+        S = HYP_SIZE[h]
+        d = gbeh.parse_kv(" ".join(t[2:]))
+        vin, out = d["in"], d["out"]
+        nrun += 1
+        what = None
+        if prog == "ortho":
+            e = add(vin[:S], vin[S:2 * S])
+            E1, E2, E3, n12, n23, n13, G12, G23, G13 = vin[2 * S:2 * S + 9]
+            Ev = (E1, E2, E3)
+            Sm = [[1 / E1, -n12 / E1, -n13 / E1], [-n12 / E1, 1 / E2, -n23 / E2], [-n13 / E1, -n23 / E2, 1 / E3]]
+            G = {(0, 1): G12, (1, 2): G23, (0, 2): G13}
+            pm = ORTHO_PERM[h]
+            sig = out[:S]
+            smax = max(abs(x) for x in sig) or 1.0
+            for i in range(3):
+                ei = sum(Sm[pm[i]][pm[j]] * sig[j] for j in range(3))
+                if abs(ei - e[i]) > 1e-11 * max(smax / min(Ev), max(abs(x) for x in e)):
+                    what = ("strain component %d recomputed from the returned stress with the compliance of the material axes %s is %.12g, the strain is %.12g "
+                            "(E2=%.6g, E3=%.6g, nu23=%.4g)" % (i, [pm[0] + 1, pm[1] + 1, pm[2] + 1], ei, e[i], E2, E3, n23))
+                    break
+            pairs = [(0, 1), (0, 2), (1, 2)]
+            for k in range(3, S):
+                a, b = pm[pairs[k - 3][0]], pm[pairs[k - 3][1]]
+                g = G[(min(a, b), max(a, b))]
+                if what is None and abs(sig[k] - 2 * g * e[k]) > 1e-12 * max(abs(sig[k]), abs(2 * g * e[k]), 1e-300):
+                    what = "shear stress %d is %.12g, 2 G eps is %.12g" % (k, sig[k], 2 * g * e[k])
+            Dt = out[S:]
+            if what is None and any(abs(Dt[S * i + j] - Dt[S * j + i]) > 1e-9 * max(Ev) for i in range(S) for j in range(S)):
+                what = "the stiffness returned as tangent operator is not symmetric: %s" % Dt
+            c.count(1, ("ortho", h, tuple(vin)), True)
+            key = "run:ortho:%s:%s" % (h, ",".join("%.6g" % x for x in vin[2 * S:2 * S + 6]))
+        else:
+            alg = prog[3:]
+            eel, deto = vin[:S], vin[S:2 * S]
+            p, young, nu, A, E, dt = vin[2 * S:2 * S + 6]
+            f = lambda y: norton_rates(y[:S], deto, young, nu, A, E, dt)
+            y0 = eel + [p]
+            sc = max(max(abs(x) for x in eel), max(abs(x) for x in deto))
+            ok = d.get("ok", [1.0])[0] == 1.0
+            try:
+                if alg in ("euler", "rk2", "rk4"):
+                    y1, tol = rk_step(y0, dt, f, alg), 1e-11
+                else:
+                    y1, tol, N = y0, 1e-6, 400
+                    for _ in range(N):
+                        y1 = rk_step(y1, dt / N, f, "rk4")
+            except (OverflowError, ValueError):
+                continue
+            if not ok:
+                what = "integrate() failed on a regular creep step"
+            else:
+                err = max(abs(a - b) for a, b in zip(y1, out[:S + 1])) / sc
+                if not err <= tol:
+                    what = ("algorithm %s: returned (eel, p) differs from %s by %.3g (relative to the strain scale; tolerance %.1g)" % (
+                        alg, "the one-step formula of the scheme applied to the rate equations" if tol < 1e-9 else "the reference solution of the rate equations (RK4, 400 substeps)", err, tol))
+                elif not close(out[S + 1:2 * S + 1], hooke(young, nu, out[:S]), young * sc, 1e-12):
+                    what = "final stress is not Hooke(eel)"
+            c.count(1, (prog, h, tuple(vin)), True)
+            key = "run:%s:%s:%s" % (prog, h, ",".join("%.6g" % x for x in vin[:2 * S + 3]))
+        if nrun % 41 == 1:
+            c.sample({"program": prog, "hypothesis": h, "inputs": vin, "outputs": out[:2 * S + 1]})
+        if what:
+            c.report(key, "program %s (%s): %s; inputs %s" % (prog, h, what, vin), {"program": prog, "hypothesis": h, "inputs": vin, "outputs": out,
+                     "how": "props/C41/trace_%s.cxx, double instantiation of the generated class" % ("ortho" if prog == "ortho" else "rk")}, True)
+    return nrun
+
+
 def main(c):
-    keys = ["el", "norton", "iso"]
-    hyps = {"el": "h3d,hag", "norton": c.pick("hag", "hag,hpe,h3d"), "iso": c.pick("hag", "hag,hpe,h3d")}
-    res = gbeh.trace_programs(c, keys, hyps, c.pick(200, 2000))
+    keys = ["el", "norton", "iso", "ortho", "rk"]
+    hyps = {"el": "h3d,hag", "norton": c.pick("hag", "hag,hpe,h3d"), "iso": c.pick("hag", "hag,hpe,h3d"), "ortho": "h3d,hax,hpe,hgp",
+            "rk": c.pick("hag", "hag,h3d")}
+    res = gbeh.trace_programs(c, keys, hyps, c.pick(200, 2000), variants=gbeh.rk_variants(c))
+    c.log("tracers done")
     lines = [l for k in res for l in res[k][1]]
     nag = gbeh.agreement(c, lines)
-    nrun = check_runs(c, lines)
+    nrun = check_runs(c, lines) + 0
+    nrun2 = check_ortho_rk(c, lines)
     c.coverage["programs"] = sum(len(gbeh.PROGRAMS[k][0]) for k in res)
-    c.coverage["disagreements_checked"] = nag + nrun
+    c.coverage["disagreements_checked"] = nag + nrun + nrun2
     c.coverage["traces_validated_against_impl"] = nag
-    c.coverage["rule"] = ("programs: the 4 reference .mfront files (Default elasticity, Implicit Norton with analytical jacobian, "
-                          "IsotropicPlasticMisesFlow linear hardening, IsotropicMisesCreep Norton) x hypotheses %s; agreement: seeded states "
-                          "(Sym DAG evaluated in long double vs double instantiation, each state on its own path); executions: integrate() in "
-                          "double on seeded states, outputs checked against the discretised equations; non-trivial = inelastic step" % hyps)
+    c.coverage["rule"] = ("programs: the reference .mfront files (Default elasticity, Implicit Norton with analytical jacobian, IsotropicPlasticMisesFlow "
+                          "linear hardening, IsotropicMisesCreep Norton, orthotropic elasticity with the Pipe convention, RungeKutta Norton with the algorithms %s) "
+                          "x hypotheses %s; agreement: seeded states (Sym DAG evaluated in long double vs double instantiation, each state on its own path); "
+                          "executions: integrate() in double on seeded states, outputs checked against the discretised equations / one-step formulas / "
+                          "reference solution; non-trivial = inelastic step" % (list(gbeh.RK_ALGORITHMS), hyps))
     c.trusted("mfront built from /repo's working tree (c.repo_build) and g++ template instantiation of the generated classes with symv::Sym",
               "engine S tracer (cxx/sym/sym.hxx), props/C41/gsym.hxx (leaf selection by a reference state, std::is_arithmetic<Sym> specialisation, "
               "#define private public around the generated header)",
               "path conditions (X_cond_h) printed with the traced leaves: the traced definitions are the code's outputs on the states that satisfy them; "
               "checked by the Sym-vs-double agreement on seeded states",
-              "Python statements of the discretised equations in props/C41/check.py (execution check of the Newton loops)")
+              "Python statements of the discretised equations, of the Runge-Kutta one-step formulas (Euler, midpoint, classical RK4) and of the reference "
+              "solution in props/C41/check.py (execution check of the Newton and Runge-Kutta loops)")
     if len(res) < len(keys):
         return
-    common = ["GBehLib.v", "BehSpec.v"] + [res[k][0] for k in keys]
-    r = gbeh.coq_parallel(c, common, ["C41Proofs_el.v", "C41Proofs_norton.v", "C41Proofs_iso.v"], ["Properties_C41.v"], timeout=900)
-    if not r.ok:
+    common = ["GBehLib.v", "BehSpec.v"]
+    pre = [[res[k][0]] for k in keys]
+    phase1 = [("iso", "C41Proofs_iso.v"), ("rk", "C41Proofs_rk.v"), ("norton", "C41Proofs_norton.v"), ("ortho", "C41Proofs_ortho.v"), ("el", "C41Proofs_el.v")]
+    phase2 = [([k], ["Properties_C41_%s.v" % k]) for k in ("iso", "rk", "norton", "ortho", "el")]
+    r = gbeh.coq_phases(c, common, pre, phase1, phase2, timeout=900)
+    if r is not None:
         if c.violations and any(v[3] for v in c.violations):
             c.notes.append("proof obligations failed: %s; concrete failing inputs reported above" % [f[2] or f[0] for f in r.failed])
         else:
